@@ -361,7 +361,7 @@ func genC10(cs *CaseSet, rng *Rng, tier string, dir string) {
 						}
 						ffo := c10FFO(name, it.data[off:])
 						if idx == cutIdx && len(it.data[off:]) > 1 {
-							cutAt = 1 + rng.Intn(len(it.data[off:])-1)
+							cutAt = rng.Intn(len(it.data[off:]))
 							x.write(append(be32(len(ffo)), ffo[:len(ffo)-len(it.data[off:])+cutAt]...))
 							x.c.Close()
 							died = true
@@ -373,7 +373,7 @@ func genC10(cs *CaseSet, rng *Rng, tier string, dir string) {
 						replies = append(replies, 1, 0, 0, 0, 0)
 						ffo := c10FFO(name, it.data)
 						if idx == cutIdx && len(it.data) > 1 {
-							cutAt = 1 + rng.Intn(len(it.data)-1)
+							cutAt = rng.Intn(len(it.data))
 							x.write(append(be32(len(ffo)), ffo[:len(ffo)-len(it.data)+cutAt]...))
 							x.c.Close()
 							died = true
